@@ -31,8 +31,15 @@ func (vm *verifMachine) havocAtBoundary() {
 	vHavoc("cpu", c)
 	vHavoc("mem", &vm.mp.Mem)
 	// every consistent state of the interrupt controller (set through its own writers)
-	vm.intr.WriteIE(vU8("ie"))
-	vm.intr.WriteIF(vU8("if"))
+	// the two registers are written in either order (a cached "pending" must follow both)
+	ie0, if0 := vU8("ie"), vU8("if")
+	if vBool("ie-written-last") {
+		vm.intr.WriteIF(if0)
+		vm.intr.WriteIE(ie0)
+	} else {
+		vm.intr.WriteIE(ie0)
+		vm.intr.WriteIF(if0)
+	}
 	if vBool("ime") {
 		vm.intr.Enable()
 	} else {
@@ -134,19 +141,46 @@ func verifInstr(haltbug bool, after bool) {
 	vm := newVerifMachine()
 	vm.havocAtBoundary()
 	if after {
+		// the previous instruction was the same opcode byte under the other prefix (executed for real, so that whatever it
+		// leaves in the scheduler is exactly what the implementation leaves), then registers, memory and interrupt state are
+		// made arbitrary again. A younger CPU instance is created as well.
 		c := vm.c
-		c.currentInstruction = op
-		if cb {
-			c.currentSubinstructions = c.normal[op]
-			c.currentIsFinishedEarly = c.isFinishedEarlys[op]
+		undefinedBase := op == 0xd3 || op == 0xdb || op == 0xdd || op == 0xe3 || op == 0xe4 || op == 0xeb || op == 0xec || op == 0xed || op == 0xf4 || op == 0xfc || op == 0xfd || op == 0xcb
+		if !(cb && undefinedBase) {
+			p0 := vm.intr.ReadIE()&vm.intr.ReadIF()&0x1f != 0
+			vAssume(!(vm.imeAtBoundary() && p0))
+			vm.placeOpcode(op, !cb)
+			vAssume(vm.runToBoundary(7) > 0)
+		}
+		younger := newVerifMachine()
+		younger.havocNamed("younger.")
+		vHavoc("r2.a", &c.a)
+		vHavoc("r2.f", &c.f)
+		vHavoc("r2.b", &c.b)
+		vHavoc("r2.c", &c.c)
+		vHavoc("r2.d", &c.d)
+		vHavoc("r2.e", &c.e)
+		vHavoc("r2.h", &c.h)
+		vHavoc("r2.l", &c.l)
+		vHavoc("r2.sp", &c.sp)
+		vHavoc("r2.pc", &c.pc)
+		vHavoc("r2.mem", &vm.mp.Mem)
+		vm.intr.WriteIF(vU8("r2.if"))
+		vm.intr.WriteIE(vU8("r2.ie"))
+		if vBool("r2.ime") {
+			vm.intr.Enable()
 		} else {
-			c.currentSubinstructions = c.prefix[op]
-			c.currentIsFinishedEarly = nil
+			vm.intr.Disable()
 		}
-		c.currentCycle = len(c.currentSubinstructions)
-		if c.currentIsFinishedEarly != nil {
-			vAssume(c.isFinished())
-		}
+		c.f &= 0xf0
+		c.halted = false
+		c.haltbug = false
+		c.stopped = false
+		vm.mp.LogN = 0
+		vAssume(c.eiDelay <= 2 && (c.eiDelay == 0 || !vm.intr.Enabled()))
+		// still at the boundary the previous instruction ended on: after a conditional instruction that finished early, the
+		// new flag values must be ones with which it would have finished there (a real program cannot change F in between)
+		vAssume(c.isFinished())
 	}
 	pending := vm.intr.ReadIE()&vm.intr.ReadIF()&0x1f != 0
 	vAssume(!(vm.imeAtBoundary() && pending))
